@@ -25,7 +25,7 @@ type Step struct {
 	Bad      string         `json:"bad,omitempty"` // a statement that fails: "unknown-column" | "type-error" | "unknown-table"
 	Conflict bool           `json:"conflict,omitempty"`
 	Shared   bool           `json:"shared,omitempty"` // with Conflict: the parked transaction only reads the table (shared locks), so the statement's scan succeeds and its lock upgrade is refused
-	End      string         `json:"end"` // commit | abort
+	End      string         `json:"end"`              // commit | abort
 	Repeat   int            `json:"repeat,omitempty"`
 }
 
